@@ -4,3 +4,7 @@ import PycommProps.C01
 #print axioms Pycomm.C01.bool_read_slice
 #print axioms Pycomm.C01.client_unpacks_packed
 #print axioms Pycomm.C01.read_fragments_tile
+#print axioms Pycomm.C01.read_e2e
+#print axioms Pycomm.C01.read_reply_decodes
+#print axioms Pycomm.C01.read_reply_decodes_scalar
+#print axioms Pycomm.C01.read_frag_e2e
